@@ -41,8 +41,10 @@ VALUES: Dict[str, Dict[str, Any]] = {
     "date": dict(a=dt.date(1969, 12, 31), b=dt.date(2000, 1, 1), c=dt.date(2024, 2, 29)),
     "timestamp": dict(a=dt.datetime(1969, 12, 31, 23, 59, 59, 999999), b=dt.datetime(2000, 1, 1),
                       c=dt.datetime(2024, 2, 29, 12, 0, 0, 1)),
+    # a type for which the writer records NO column bounds (binary / fixed / list columns)
+    "binary": dict(a=b"\x00a", b=b"b", c=b"\xffz"),
 }
-QUICK_TYPES = ["long", "double", "string", "boolean"]
+QUICK_TYPES = ["long", "double", "string", "boolean", "binary"]
 ALL_TYPES = list(VALUES)
 PAIRS = [("long", "string"), ("double", "boolean"), ("date", "timestamp"), ("string", "double"),
          ("boolean", "long"), ("timestamp", "date")]
